@@ -58,6 +58,23 @@ pub enum Op {
     Eof(u32),
     HasOpen,
     Label(u32),
+    // ---- the same calls through the RAII wrappers (`File`, `Directory`, `Volume`) and the embedded-io traits
+    IoRead(u32, usize),
+    IoWrite(u32, Vec<u8>),
+    IoFlush(u32),
+    IoSeekStart(u32, u64),
+    IoSeekEnd(u32, i64),
+    IoSeekCur(u32, i64),
+    WEof(u32),
+    WLength(u32),
+    WOffset(u32),
+    WDropFile(u32),
+    WCloseFile(u32),
+    WDropDir(u32),
+    WCloseDir(u32),
+    WChangeDir(u32, String),
+    WDropVolume(u32),
+    WCloseVolume(u32),
 }
 
 pub fn mode_token(m: Mode) -> &'static str {
@@ -107,12 +124,29 @@ impl Op {
             Op::Eof(f) => format!("op eof {f}"),
             Op::HasOpen => "op has_open".to_string(),
             Op::Label(v) => format!("op label {v}"),
+            Op::IoRead(f, n) => format!("op io_read {f} {n}"),
+            Op::IoWrite(f, b) => format!("op io_write {f} {}", hex_or_dash(b)),
+            Op::IoFlush(f) => format!("op io_flush {f}"),
+            Op::IoSeekStart(f, n) => format!("op io_seek_start {f} {n}"),
+            Op::IoSeekEnd(f, n) => format!("op io_seek_end {f} {n}"),
+            Op::IoSeekCur(f, n) => format!("op io_seek_cur {f} {n}"),
+            Op::WEof(f) => format!("op w_eof {f}"),
+            Op::WLength(f) => format!("op w_length {f}"),
+            Op::WOffset(f) => format!("op w_offset {f}"),
+            Op::WDropFile(f) => format!("op w_drop_file {f}"),
+            Op::WCloseFile(f) => format!("op w_close_file {f}"),
+            Op::WDropDir(d) => format!("op w_drop_dir {d}"),
+            Op::WCloseDir(d) => format!("op w_close_dir {d}"),
+            Op::WChangeDir(d, n) => format!("op w_change_dir {d} {}", name_token(n)),
+            Op::WDropVolume(v) => format!("op w_drop_volume {v}"),
+            Op::WCloseVolume(v) => format!("op w_close_volume {v}"),
         }
     }
     /// short human-readable form for replay files
     pub fn show(&self) -> String {
         match self {
             Op::Write(f, b) if b.len() > 24 => format!("write {f} <{} bytes fnv {:x}>", b.len(), fnv64(b)),
+            Op::IoWrite(f, b) if b.len() > 24 => format!("io_write {f} <{} bytes fnv {:x}>", b.len(), fnv64(b)),
             other => other.line()[3..].to_string(),
         }
     }
@@ -141,6 +175,22 @@ impl Op {
             Op::Eof(_) => "eof",
             Op::HasOpen => "has_open",
             Op::Label(_) => "label",
+            Op::IoRead(..) => "io_read",
+            Op::IoWrite(..) => "io_write",
+            Op::IoFlush(_) => "io_flush",
+            Op::IoSeekStart(..) => "io_seek_start",
+            Op::IoSeekEnd(..) => "io_seek_end",
+            Op::IoSeekCur(..) => "io_seek_cur",
+            Op::WEof(_) => "w_eof",
+            Op::WLength(_) => "w_length",
+            Op::WOffset(_) => "w_offset",
+            Op::WDropFile(_) => "w_drop_file",
+            Op::WCloseFile(_) => "w_close_file",
+            Op::WDropDir(_) => "w_drop_dir",
+            Op::WCloseDir(_) => "w_close_dir",
+            Op::WChangeDir(..) => "w_change_dir",
+            Op::WDropVolume(_) => "w_drop_volume",
+            Op::WCloseVolume(_) => "w_close_volume",
         }
     }
 }
@@ -290,6 +340,86 @@ impl<const D: usize, const F: usize, const V: usize> Vm for VolumeManager<RamDis
                 Ok(None) => "ok v none".to_string(),
                 Err(e) => show_err(&e),
             },
+            // ---- wrappers: a `File` / `Directory` / `Volume` is made from the raw handle for the one call and
+            // turned back into the raw handle afterwards (so that its `Drop` does not run), except for the drops
+            Op::IoRead(f, n) => {
+                let mut file = rf(*f).to_file(self);
+                let mut buf = vec![0u8; *n];
+                let r = embedded_io::Read::read(&mut file, &mut buf);
+                let _ = file.to_raw_file();
+                match r {
+                    Ok(k) => format!("ok b {}", hex_or_dash(&buf[..k])),
+                    Err(e) => show_err(&e),
+                }
+            }
+            Op::IoWrite(f, b) => {
+                let mut file = rf(*f).to_file(self);
+                let r = embedded_io::Write::write(&mut file, b);
+                let _ = file.to_raw_file();
+                match r {
+                    Ok(k) => format!("ok n {k}"),
+                    Err(e) => show_err(&e),
+                }
+            }
+            Op::IoFlush(f) => {
+                let mut file = rf(*f).to_file(self);
+                let r = embedded_io::Write::flush(&mut file);
+                let _ = file.to_raw_file();
+                unit(r)
+            }
+            Op::IoSeekStart(..) | Op::IoSeekEnd(..) | Op::IoSeekCur(..) => {
+                let (f, pos) = match op {
+                    Op::IoSeekStart(f, n) => (*f, embedded_io::SeekFrom::Start(*n)),
+                    Op::IoSeekEnd(f, n) => (*f, embedded_io::SeekFrom::End(*n)),
+                    Op::IoSeekCur(f, n) => (*f, embedded_io::SeekFrom::Current(*n)),
+                    _ => unreachable!(),
+                };
+                let mut file = rf(f).to_file(self);
+                let r = embedded_io::Seek::seek(&mut file, pos);
+                let _ = file.to_raw_file();
+                match r {
+                    Ok(p) => format!("ok n {p}"),
+                    Err(e) => show_err(&e),
+                }
+            }
+            Op::WEof(f) | Op::WLength(f) | Op::WOffset(f) => {
+                // these panic on a handle that is not open ("Corrupt file ID"); the wrapper must not be dropped
+                // during the unwinding (its Drop would be a second call), so the panic is caught here
+                let file = std::mem::ManuallyDrop::new(rf(*f).to_file(self));
+                let r = catch_unwind(AssertUnwindSafe(|| match op {
+                    Op::WEof(_) => (if file.is_eof() { "ok t" } else { "ok f" }).to_string(),
+                    Op::WLength(_) => format!("ok n {}", file.length()),
+                    _ => format!("ok n {}", file.offset()),
+                }));
+                r.unwrap_or_else(|_| "panic".to_string())
+            }
+            Op::WDropFile(f) => {
+                drop(rf(*f).to_file(self));
+                "ok".into()
+            }
+            Op::WCloseFile(f) => unit(rf(*f).to_file(self).close()),
+            Op::WDropDir(d) => {
+                drop(rd(*d).to_directory(self));
+                "ok".into()
+            }
+            Op::WCloseDir(d) => unit(rd(*d).to_directory(self).close()),
+            Op::WChangeDir(d, n) => {
+                let mut dir = std::mem::ManuallyDrop::new(rd(*d).to_directory(self));
+                let r = catch_unwind(AssertUnwindSafe(|| dir.change_dir(n.as_str())));
+                match r {
+                    Ok(Ok(())) => {
+                        let dir = std::mem::ManuallyDrop::into_inner(dir);
+                        format!("ok h {}", dnum(dir.to_raw_directory()))
+                    }
+                    Ok(Err(e)) => show_err(&e),
+                    Err(_) => "panic".to_string(),
+                }
+            }
+            Op::WDropVolume(v) => {
+                drop(rv(*v).to_volume(self));
+                "ok".into()
+            }
+            Op::WCloseVolume(v) => unit(rv(*v).to_volume(self).close()),
         }
     }
 
